@@ -95,3 +95,8 @@ Theorem c02_held_nontrivial_v5 :
   option_map Client.Inv5.held5 (Client.Inv5.run5 (init5 2 false) (h ++ [Inc5 (P5PubRec 1 135); Inc5 (P5PubAck 1 128)])) = Some [] /\
   option_map Client.Inv5.held5 (Client.Inv5.run5 (init5 2 false) (h ++ [Inc5 (P5PubRec 1 16)])) = Some [R5PubRel 1; R5Publish (mkPub5 Q1 1 3 3 None)].
 Proof. exact held5_nontrivial. Qed.
+
+Theorem c02_throttle_cancel_safe : forall l, Client.Loop.lstep l Client.Loop.TakeCancelled = Client.Loop.Stepped l /\
+  forall l', Client.Loop.lstep l Client.Loop.TakeCancelled = Client.Loop.Stepped l' ->
+    Client.Loop.pending l' = Client.Loop.pending l /\ Client.Loop.chan l' = Client.Loop.chan l /\ Client.Loop.st l' = Client.Loop.st l.
+Proof. exact Client.LoopProofs.throttle_cancel_safe. Qed.
